@@ -155,6 +155,7 @@ enum Variant {
     AlternatingNs,
     CrossReferences,
     AnnotatedImports,
+    DotSlashLocations,
 }
 
 fn variant_name(v: Variant) -> &'static str {
@@ -170,6 +171,7 @@ fn variant_name(v: Variant) -> &'static str {
         Variant::AlternatingNs => "two-namespaces-alternating-over-the-files",
         Variant::CrossReferences => "cross-file-bases-and-refs",
         Variant::AnnotatedImports => "annotation-before-and-between-the-imports",
+        Variant::DotSlashLocations => "schema-locations-spelled-dot-slash",
     }
 }
 
@@ -187,6 +189,8 @@ fn build_case(n: usize, edges: u32, v: Variant) -> Case {
             Variant::SharedNs => print_xsd(&file_for_ns(i, n, edges, false, false, true)),
             Variant::AlternatingNs => print_xsd(&file_for_ns_mode(i, n, edges, false, false, 2)),
             Variant::CrossReferences => print_xsd(&file_with_cross_references(i, n, edges)),
+            // the sibling is named `./f1.xsd` in schemaLocation (a common spelling of a sibling's name)
+            Variant::DotSlashLocations => print_xsd(&file_for(i, n, edges, false, false)).replace("schemaLocation=\"f", "schemaLocation=\"./f"),
             Variant::AnnotatedImports => {
                 // an <xs:annotation> as the first child of the schema and another one after every import
                 let note = "<xs:annotation><xs:documentation>about the imports</xs:documentation></xs:annotation>";
@@ -362,9 +366,9 @@ pub fn check(tier: &str) -> i32 {
         let variants: Vec<Variant> = if n >= 5 {
             vec![Variant::Base, Variant::Malformed]
         } else if n <= 3 || tier == "thorough" {
-            vec![Variant::Base, Variant::Removed, Variant::Changed, Variant::Malformed, Variant::NonSchema, Variant::DupEdges, Variant::WsdlStart, Variant::SharedNs, Variant::AlternatingNs, Variant::CrossReferences, Variant::AnnotatedImports]
+            vec![Variant::Base, Variant::Removed, Variant::Changed, Variant::Malformed, Variant::NonSchema, Variant::DupEdges, Variant::WsdlStart, Variant::SharedNs, Variant::AlternatingNs, Variant::CrossReferences, Variant::AnnotatedImports, Variant::DotSlashLocations]
         } else {
-            vec![Variant::Base, Variant::Malformed, Variant::Removed, Variant::SharedNs, Variant::AlternatingNs, Variant::CrossReferences, Variant::AnnotatedImports]
+            vec![Variant::Base, Variant::Malformed, Variant::Removed, Variant::SharedNs, Variant::AlternatingNs, Variant::CrossReferences, Variant::AnnotatedImports, Variant::DotSlashLocations]
         };
         let mut n_states = 0u64;
         for chunk in graphs.chunks(4096) {
@@ -385,7 +389,7 @@ pub fn check(tier: &str) -> i32 {
                     }
                     // quick tier: the two spelling/namespace variants added last run on all graphs with
                     // up to 3 files and, for 4 files, on those with at most 6 import edges (thorough: all)
-                    if tier == "quick" && n == 4 && matches!(v, Variant::AlternatingNs | Variant::AnnotatedImports) && e.count_ones() > 6 {
+                    if tier == "quick" && n == 4 && matches!(v, Variant::AlternatingNs | Variant::AnnotatedImports | Variant::DotSlashLocations) && e.count_ones() > 6 {
                         continue;
                     }
                     // references across an import CYCLE are finding F-C08-1 (C08's); here: acyclic graphs
@@ -457,7 +461,7 @@ pub fn replay(v: &Violation) -> i32 {
     let n = v.case["n"].as_u64().unwrap_or(1) as usize;
     let edges = v.case["edges"].as_u64().unwrap_or(0) as u32;
     let vname = v.case["variant"].as_str().unwrap_or("as-generated");
-    let variant = [Variant::Base, Variant::Removed, Variant::Changed, Variant::Malformed, Variant::NonSchema, Variant::DupEdges, Variant::WsdlStart, Variant::SharedNs, Variant::AlternatingNs, Variant::CrossReferences, Variant::AnnotatedImports]
+    let variant = [Variant::Base, Variant::Removed, Variant::Changed, Variant::Malformed, Variant::NonSchema, Variant::DupEdges, Variant::WsdlStart, Variant::SharedNs, Variant::AlternatingNs, Variant::CrossReferences, Variant::AnnotatedImports, Variant::DotSlashLocations]
         .into_iter()
         .find(|x| variant_name(*x) == vname)
         .unwrap_or(Variant::Base);
